@@ -259,6 +259,9 @@ def delegation_externals(returns=None):
         if a[0] == atom('MAT') and isinstance(ax, tuple) and ax[:1] == ('struct',) and ax[2].get('0') in (0, 1):
             return atom('ROWS' if ax[2]['0'] == 0 else 'COLS')
         raise Unknown('len_of')
+    for k_, v_ in returns.items():
+        if '::' in k_:
+            ext[k_] = rec(k_, v_) if k_ not in ('Tree::is_root', 'Tree::parent') else (lambda a, v_=v_: v_)
     ext.update({'ArrayBase::shape': of_mat(rows_cols), 'ArrayBase::nrows': of_mat(atom('ROWS')), 'ArrayBase::ncols': of_mat(atom('COLS')),
                 'ArrayBase::dim': of_mat(('tuple', [atom('ROWS'), atom('COLS')])), 'ArrayBase::raw_dim': of_mat(rows_cols),
                 'ArrayBase::len_of': len_of,
@@ -433,6 +436,36 @@ def cases_afftree_delegate(name):
     return mk
 
 
+def cases_tree_clone():
+    return [('any tree', [struct(TREE, arena=atom('ARENA'), root=atom('ROOT'))], struct(TREE, arena=atom('ARENA'), root=atom('ROOT')))]
+
+
+def cases_node_clone():
+    n = struct(NODE, value=V, parent=atom('PARENT'), children=atom('CHILDREN'), isleaf=atom('ISLEAF'))
+    return [('any node', [n], n)]
+
+
+def cases_afftree_clone():
+    t = struct(TREE, arena=atom('ARENA'), root=atom('ROOT'))
+    return [('any tree', [struct('pwl::afftree::AffTree', tree=t, in_dim=atom('DIM'), polytope_cache=atom('CACHE'))],
+             struct('pwl::afftree::AffTree', tree=t, in_dim=atom('DIM')))]
+
+
+def cases_replace_node():
+    t = atom('ARENA_TREE')
+    me = struct('pwl::afftree::AffTree', tree=t, in_dim=atom('DIM'))
+    P = atom('P')
+    e = edge(P, L, A)
+    AFF = atom('AFF')
+    r_root = {'Tree::is_root': True, 'AffTree::update_node': ok(atom('OLD'))}
+    r_orphan = {'Tree::is_root': False, 'Tree::parent': err(atom('E'))}
+    r_inner = {'Tree::is_root': False, 'Tree::parent': ok(e), 'Tree::remove_child': some(atom('REMOVED')), 'AffTree::add_child_node': ok(atom('NEW'))}
+    return [('the root', [me, A, AFF], ok(A), {'returns': r_root, 'calls': [('AffTree::update_node', [me, A, AFF])]}),
+            ('a node whose parent edge cannot be found', [me, A, AFF], ('err', None), {'returns': r_orphan, 'calls': []}),
+            ('a node below the root', [me, A, AFF], ok(atom('NEW')),
+             {'returns': r_inner, 'calls': [('Tree::remove_child', [t, P, L]), ('AffTree::add_child_node', [me, P, L, AFF])]})]
+
+
 def cases_polyiter_size_hint():
     dfs = struct('tree::iter::DfsPre', size_lb=atom('LB'), size_ub=atom('UB'), last_push=atom('LP'), stack=atom('STACK'))
     gen = struct('pwl::iter::PolyhedraGen', iter=dfs, predicates=atom('PREDICATES'), last_depth=atom('DEPTH'))
@@ -458,6 +491,10 @@ TABLES.update({
     'AffTree::num_terminals': (cases_afftree_delegate('Tree::num_terminals'), 'the number of terminals of the arena tree'),
     'AffTree::depth': (cases_afftree_delegate('Tree::depth'), 'the depth of the arena tree'),
     'PolyhedraIter::skip_subtree': (cases_polyiter_skip, 'skip_subtree of the wrapped generator'),
+    '<Tree as Clone>::clone': (cases_tree_clone, 'a copy with the same arena (same indices) and the same root'),
+    '<TreeNode as Clone>::clone': (cases_node_clone, 'a copy with the same value, parent link, child slots and leaf flag'),
+    '<AffTree as Clone>::clone': (cases_afftree_clone, 'a copy with the same arena tree and input dimension'),
+    'AffTree::replace_node': (cases_replace_node, 'the root keeps its place and gets the new function; any other node is detached from its parent slot (with its descendants) and a fresh node with the new function is attached to that same slot'),
     '<PolyhedraIter as Iterator>::size_hint': (cases_polyiter_size_hint, 'the bounds kept by the wrapped depth-first traversal'),
 })
 ONCE = {'<TraversalIter as Iterator>::next': 'next', '<TraversalIter as Iterator>::size_hint': 'size_hint', 'tree::iter::TraversalMut::iter': 'new',
@@ -495,6 +532,10 @@ def check_table(ctx, rule, q, site=None):
             wrong.append('for %s it gives %s, not %s' % (name, show(got), show(want)))
         elif q in ONCE and [n for n, _ in log].count(ONCE[q]) != 1:
             wrong.append('%s is called %d times, not once' % (ONCE[q], [n for n, _ in log].count(ONCE[q])))
+        elif 'calls' in opts and not (len(log) == len(opts['calls']) and all(n == wn and len(a) == len(wa) and all(same(x, w) for x, w in zip(a, wa))
+                                                                                 for (n, a), (wn, wa) in zip(log, opts['calls']))):
+            wrong.append('for %s the calls are [%s], not [%s]' % (name, '; '.join('%s(%s)' % (n, ', '.join(show(x, 1) for x in a)) for n, a in log),
+                                                                    '; '.join('%s(%s)' % (n, ', '.join(show(x, 1) for x in a)) for n, a in opts['calls'])))
         elif opts.get('call') and not any(n == opts['call'][0] and len(a) == len(opts['call'][1]) and all(same(x, w) for x, w in zip(a, opts['call'][1]))
                                           for n, a in log):
             wrong.append('for %s it does not call %s(%s)' % (name, opts['call'][0], ', '.join(show(x) for x in opts['call'][1])))
@@ -812,23 +853,23 @@ def run(ctx, rule, names):
 RULE_TEXT = ('the small accessors this property\'s rules read by name do what the name says: each body is walked over an exhaustive case '
              'partition of its inputs (index stored / not stored, slot empty / occupied, root absent / this / another index) and must return '
              'the contract\'s value in every case')
-DEPS = {'C01': ['Tree::children', 'Tree::is_leaf', 'Tree::num_children', 'Tree::parent', 'Tree::contains', 'Tree::get_root', 'AffFuncBase::indim', 'AffFuncBase::outdim', 'afftree_from_layers', 'afftree_from_layers_verbose', 'afftree_from_layers_csv'],
-        'C02': ['Tree::children', 'Tree::is_leaf', 'Tree::get_root', '<AffFuncBase as Clone>::clone', 'AffFuncBase::indim', 'AffFuncBase::outdim'],
+DEPS = {'C01': ['Tree::children', 'Tree::is_leaf', 'Tree::num_children', 'Tree::parent', 'Tree::contains', 'Tree::get_root', 'AffFuncBase::indim', 'AffFuncBase::outdim', 'afftree_from_layers', 'afftree_from_layers_verbose', 'afftree_from_layers_csv', 'Tree::terminals', 'AffTree::terminals'],
+        'C02': ['Tree::children', 'Tree::is_leaf', 'Tree::get_root', '<AffFuncBase as Clone>::clone', 'AffFuncBase::indim', 'AffFuncBase::outdim', '<AffTree as Clone>::clone'],
         'C03': ['Tree::children', 'Tree::contains', 'Tree::num_children', 'Tree::parent', 'Tree::is_leaf'],
-        'C04': ['InputError::expect_dim', 'Tree::is_leaf', 'AffFuncBase::indim', 'AffFuncBase::outdim', 'AffFuncBase::n_constraints', 'TreeNode::new', 'Tree::with_root'],
+        'C04': ['InputError::expect_dim', 'Tree::is_leaf', 'AffFuncBase::indim', 'AffFuncBase::outdim', 'AffFuncBase::n_constraints', 'TreeNode::new', 'Tree::with_root', 'AffTree::replace_node', 'Tree::terminals', 'AffTree::terminals'],
         'C05': ['Tree::parent', 'Tree::children', 'Tree::contains', 'Tree::node_value', 'AffContent::feasible_witnesses'],
         'C06': ['Tree::contains', 'Tree::num_children', 'Tree::parent', 'Tree::children'],
-        'C07': ['<AffFuncBase as Clone>::clone', 'Tree::children', 'Tree::is_leaf', '<TraversalIter as Iterator>::next'],
+        'C07': ['<AffFuncBase as Clone>::clone', 'Tree::children', 'Tree::is_leaf', '<TraversalIter as Iterator>::next', '<AffTree as Clone>::clone', '<Tree as Clone>::clone'],
         'C08': ['TreeNode::children_iter', 'tree::iter::TraversalMut::iter', '<TraversalIter as Iterator>::next', 'Tree::tree_node'],
         'C09': ['Tree::parent', 'Tree::child', 'Tree::children', 'Tree::get_root', 'Tree::node_value', 'Tree::num_children', '<TraversalIter as Iterator>::next', 'PolyhedraGen::current_polytope', 'PolyhedraIter::skip_subtree'],
         'C11': ['Tree::parent', 'Tree::children', 'Tree::contains'],
-        'C12': ['TreeNode::new', 'Tree::is_root', 'Tree::is_leaf', 'Tree::contains', 'Tree::tree_node', 'Tree::node_value', 'Tree::get_root', 'Tree::child', 'Tree::parent', 'Tree::num_children', 'TreeNode::children_iter', 'Tree::children', '<Tree as Index>::index', 'Tree::with_capacity', 'Tree::new', '<Tree as Default>::default', 'Tree::with_root', '<NodeError as From>::from', 'EdgeReferenceMut::extract', 'EdgeReferenceMut::edge', 'NodeReferenceMut::index', 'Tree::is_empty'],
+        'C12': ['TreeNode::new', 'Tree::is_root', 'Tree::is_leaf', 'Tree::contains', 'Tree::tree_node', 'Tree::node_value', 'Tree::get_root', 'Tree::child', 'Tree::parent', 'Tree::num_children', 'TreeNode::children_iter', 'Tree::children', '<Tree as Index>::index', 'Tree::with_capacity', 'Tree::new', '<Tree as Default>::default', 'Tree::with_root', '<NodeError as From>::from', 'EdgeReferenceMut::extract', 'EdgeReferenceMut::edge', 'NodeReferenceMut::index', 'Tree::is_empty', '<Tree as Clone>::clone', '<TreeNode as Clone>::clone'],
         'C13': ['TreeNode::children_iter', 'Tree::children', 'Tree::nodes', 'Tree::edge_iter', '<TraversalIter as Iterator>::next', '<TraversalIter as Iterator>::size_hint', 'TraversalIter::from', 'tree::iter::TraversalMut::iter', 'Tree::is_leaf', 'Tree::parent', 'Tree::get_root', '<DfsPre as TraversalMut>::size_hint', '<DfsEdge as TraversalMut>::size_hint', '<Bfs as TraversalMut>::size_hint', 'TraversalIter::skip_subtree', 'TraversalIter::new', 'EdgeReference::extract', 'EdgeReference::edge', 'NodeReference::index', 'AffTree::is_empty', 'Tree::node_indices', 'Tree::node_iter', 'Tree::get_root_idx', 'Tree::dfs_edge_iter', 'Tree::len', 'AffTree::len', 'AffTree::num_terminals', 'AffTree::depth', 'AffTree::nodes', 'AffTree::terminals', 'AffTree::decisions'],
         'C14': ['AffFuncBase::indim', 'AffFuncBase::outdim', 'AffFuncBase::n_constraints'],
         'C15': ['AffFuncBase::n_constraints', 'AffFuncBase::indim', '<AffFuncBase as Clone>::clone'],
         'C16': ['AffFuncBase::indim', 'AffFuncBase::outdim', 'AffFuncBase::n_constraints', '<AffFuncBase as Clone>::clone', 'AffContent::to_poly'],
         'C17': ['InputError::expect_dim', 'AffFuncBase::n_constraints', 'AffFuncBase::indim', 'Tree::with_root'],
-        'C18': ['Architecture::new', 'Architecture::operators', '<Architecture as IntoIterator>::into_iter'],
+        'C18': ['Architecture::new', 'Architecture::operators', '<Architecture as IntoIterator>::into_iter', 'Tree::terminals', 'AffTree::terminals'],
         'C19': ['Tree::edge_iter', 'TreeNode::children_iter', 'Tree::num_children', '<AffFuncBasePrinter as Display>::fmt@FunctionT', '<AffFuncBasePrinter as Display>::fmt@PolytopeT']}
 RID = {'C01': 'C01.R5', 'C02': 'C02.R6', 'C03': 'C03.R6', 'C04': 'C04.R5', 'C05': 'C05.R5', 'C06': 'C06.R7', 'C07': 'C07.R7', 'C08': 'C08.R4', 'C09': 'C09.R6', 'C11': 'C11.R4', 'C12': 'C12.R4', 'C13': 'C13.R10', 'C14': 'C14.R4', 'C15': 'C15.R4', 'C16': 'C16.R4', 'C17': 'C17.R5', 'C18': 'C18.R5', 'C19': 'C19.R5'}
 
